@@ -215,4 +215,42 @@ theorem countsOf_map (S : Setup ℝ) (g : Steps2D ℝ) (f : ℝ → ℝ → Outc
   | err e => rfl
   | panic e => rfl
 
+
+/-! ### scaling of pump power and deff, pointwise -/
+
+/-- composed `jsi` under `power × a`, `deff × b` (outcomes included) -/
+theorem jsi_scaled (S : Setup ℝ) (a b : ℝ) (divs : Nat) (ωs ωi : ℝ) :
+    jsi (S.scaled a b) divs ωs ωi = (jsi S divs ωs ωi).map fun x => a * b ^ 2 * x := by
+  unfold jsi
+  rw [offSupport_scaled, jsetup_scaled]
+  split
+  · simp [Outcome.map, lit_zero]
+  · cases jsetup S with
+    | ok J =>
+      cases (simpsonRule divs : Outcome (List (ℝ × ℝ) × ℝ)) with
+      | ok r =>
+        simp only [Outcome.map, Outcome.bind, PM.jsi, PM.jsaRaw_scaled, PM.jsiOfRaw_scaled]
+      | err e => rfl
+      | panic e => rfl
+    | err e => rfl
+    | panic e => rfl
+
+/-- composed `jsi_singles` under `power × a`, `deff × b` (outcomes included) -/
+theorem jsiSingles_scaled (S : Setup ℝ) (a b : ℝ) (divs : Nat) (ωs ωi : ℝ) :
+    jsiSingles (S.scaled a b) divs ωs ωi = (jsiSingles S divs ωs ωi).map fun x => a * b ^ 2 * x := by
+  unfold jsiSingles
+  rw [offSupport_scaled, jsetup_scaled]
+  split
+  · simp [Outcome.map, lit_zero]
+  · cases jsetup S with
+    | ok J =>
+      cases (Quad.simpson2dDivs divs) with
+      | ok d => simp only [Outcome.map, Outcome.bind, PM.jsiSingles_scaled]
+      | err e => rfl
+      | panic e => rfl
+    | err e => rfl
+    | panic e => rfl
+
+theorem swap_scaled (S : Setup ℝ) (a b : ℝ) : (S.scaled a b).swap = S.swap.scaled a b := rfl
+
 end Spdc.Compose
